@@ -98,7 +98,18 @@ def c11(tier, seed):
         jobs.append(J(CMDS, "VerifK11IteratorCache", impl=impl, api=1, page=1, **big))
         jobs.append(J(CMDS, "VerifK11IteratorCache", impl=impl, api=2, wild=1, page=1, **big))
     jobs.append(J(CMDS, "VerifK11IteratorCache", impl=0, api=1, page=1, fail=1, **big))
+    # several changes inside ONE partial invalidation run: a three-change page whose newest change is the write, the
+    # middle one a change of the same object#relation for another user (nb1=1; they share a marker key), the oldest
+    # unrelated (and, where the solver puts it outside the TTL window, the run is a partial one)
+    jobs.append(J(CMDS, "VerifK11IteratorCache", impl=0, api=2, wild=0, page=3, w=0, vocab=2, overflow=0, nb1=1, nb2=0, **big))
+    # markers of different runs: an earlier run left the marker of ANOTHER key of the same query (user u:1 of the filter
+    # [u:1, u:*]) in the cache, older than the entry; the write concerns u:* - every marker of the query must be consulted
+    # (two-change page, write newest: where the older change lies outside the TTL window the run is a partial one and
+    # only the entity markers - not the store-wide marker - condemn the entry)
+    jobs.append(J(CMDS, "VerifK11IteratorCache", impl=0, api=2, wild=1, page=2, w=0, overflow=0, prevmark=1, **big))
     if not q:
+        jobs.append(J(CMDS, "VerifK11IteratorCache", impl=0, api=2, wild=0, page=2, w=0, overflow=0, vocab=2, **big))
+        jobs.append(J(CMDS, "VerifK11IteratorCache", impl=0, api=2, wild=1, page=1, prevmark=1, **big))
         jobs.append(J(CMDS, "VerifK11QueryCache", page=1, ctl=1, **big))
         jobs.append(J(CMDS, "VerifK11QueryCache", page=2, w=0, **big))
         jobs.append(J(CMDS, "VerifK11QueryCache", page=2, w=1, **big))
@@ -159,7 +170,7 @@ SPEC = {
         # counterexample, not a replay of a solver model of a clean path
         "no_witness": ["VerifK11QueryCache", "VerifK11IteratorCache", "VerifK11JitteredTTL"],
         "level_text": "bounded symbolic execution of a whole staleness timeline over the engine's abstract clock (every time.Now() is a fresh non-decreasing symbolic instant) with a harness cache that models expiry exactly like InMemoryLRUCache (Set at s with ttl is visible at g iff g < s + min(ttl, 1 year)): [optional older ChangelogCacheEntry] -> an entry is populated by the REAL code (CachedCheckResolver miss; or CachedDatastore / CachedTupleReader query consumed, stopped and flushed by the real background goroutine) -> a write commits with changelog timestamp tw after the entry was stored -> the REAL InMemoryCacheController.InvalidateIfNeeded / findChangesAndInvalidateIfNecessary (goroutines, sync.Map, select, 1 s deadline) runs after the write with a harness ReadChanges returning the most recent page (1..2 changes with descending symbolic timestamps, the write among them or older than the page) and completes -> a request evaluates the REAL predicates (DetermineInvalidationTime + NewResolveCheckRequest + CachedCheckResolver.ResolveCheck; findInCache/isInvalidAt via CachedDatastore; tryGetFromCache via CachedTupleReader). Shown for the shipped defaults (TTL jitter 0, entries and controller use the same iterator TTL), for arbitrary TTLs and arbitrary instants: the pre-write entry is never served, the run never fabricates an entry, a run whose ReadChanges fails condemns all iterator entries of the store, a run that hits its own deadline changes nothing; storage.JitteredTTL stays within [base, base + base*min(pct,100)/100] and is the identity for pct = 0 (10 enumerated bases, symbolic percentage and random draw). Expected-violation configurations are kept as separate jobs on a replayable clock grid (native replay with real sleeps against the real clock); (E) the whole default Check engine behind the real CachedCheckResolver over a symbolic store: a request answered before a write (store differing in one tuple) must not influence the same request carrying the completion time of a later invalidation run, at the top level or in any dispatched sub-problem",
-        "level_note": "bounds: one entry, one write, one completed invalidation run, one later request; changelog page of 1 (quick) / 1..2 changes (same or unrelated tuple, write/delete; the write first, second, or older than the page); 3 query kinds x 2 iterator-cache implementations, wildcard and plain user writes; TTLs symbolic in 1 ns..2^40 ns; controller interval concrete (quick) / symbolic; every branch on instants is explored as a separate path (fork-all), 30..500 paths per job; a reader's look-ups (entry, then markers) are taken to happen at one instant (without this the solver finds the boundary race 'entry read just before its expiry, marker read just after the marker's expiry'); findings jobs: TTL (K+1/2) ms with K=20 (40), steps on a 1 ms grid, jitter 100 % (10 %); trusted: go/ssa, engine semantics incl. goroutine / sync / context model, abstract single clock, z3",
+        "level_note": "bounds: one entry, one write, one completed invalidation run, one later request; changelog page of 1 (quick) / 1..2 changes (same or unrelated tuple, write/delete; the write first, second, or older than the page); plus (ReadStartingWithUser, first iterator cache) a three-change page write / same object#relation for another user / unrelated, and a two-change page with the marker of an earlier run for another key of the same query already in the cache (older than the entry); 3 query kinds x 2 iterator-cache implementations, wildcard and plain user writes; TTLs symbolic in 1 ns..2^40 ns; controller interval concrete (quick) / symbolic; every branch on instants is explored as a separate path (fork-all), 30..500 paths per job; a reader's look-ups (entry, then markers) are taken to happen at one instant (without this the solver finds the boundary race 'entry read just before its expiry, marker read just after the marker's expiry'); findings jobs: TTL (K+1/2) ms with K=20 (40), steps on a 1 ms grid, jitter 100 % (10 %); trusted: go/ssa, engine semantics incl. goroutine / sync / context model, abstract single clock, z3",
         "assumptions": [
             "single clock: changelog timestamps and time.Now() are the same clock, a change is visible to ReadChanges only at or after its timestamp, and an earlier run's ChangelogCacheEntry.LastModified precedes the write",
             "populated before the write = the cache Set happened before the write's changelog timestamp (entries computed from pre-write reads but stored after the write are outside)",
